@@ -43,8 +43,9 @@ META = {'design_ref': 'DESIGN.md section 7 / C14',
                'C14_zero_no_ping (K = 0: no ping is ever created). The trace-level bound "never more than K seconds without a transmission when the driver '
                'services at reported times" is explored (monitors mon_c14_deadline, mon_c14_live, mon_c14_zero), not proved — partial. Monitors on the '
                'implementation trace: mon_c14_deadline (a PINGRESP deadline armed at time t equals t + min(ping timeout, K*500 ms); a keep-alive failure only '
-               'at or after an armed deadline), mon_c14_live (a PINGRESP clears the deadline), mon_c14_zero (K = 0: no PINGREQ), mon_c14_pings (completeness '
-               'half: while Connected with K > 0 a next ping time exists and is at most K seconds after the latest transmission / CONNACK; a service call at '
-               'or after it arms a PINGRESP deadline; a service call at or after an armed deadline fails the connection).',
+               'at or after an armed deadline), mon_c14_live (a PINGRESP clears the deadline), mon_c14_zero (K = 0: no PINGREQ and no keep-alive failure; no '
+               'ping time or PINGRESP deadline survives a connection close), mon_c14_pings (completeness half: while Connected with K > 0 a next ping time '
+               'exists and is at most K seconds after the latest transmission / CONNACK; a service call at or after it arms a PINGRESP deadline; a service '
+               'call at or after an armed deadline fails the connection).',
  'technique': 'machine-checked proof in Coq over the engine model + lock-step correspondence of the extracted model with the implementation + extracted '
               'monitors on the implementation trace'}
